@@ -496,6 +496,7 @@ func main() {
 		nrec := 400
 		if *tier == "thorough" {
 			nrec = 5000
+			witnessBudgetSecs = 400
 		}
 		for _, short := range tks {
 			kk := strings.Index(short, ".")
@@ -514,7 +515,7 @@ func main() {
 				kind = "bounded: the contract INCLUDING its 'checked' clauses (not obligations: " + strings.Join(theWorld.Checked[short], " ;; ") + ") evaluated on concrete executions of the real function (reflect driver, go test -overlay)"
 			}
 			bc := map[string]interface{}{"function": short, "kind": kind,
-				"records_tried": res["records_tried"], "records_admissible": res["records_admissible"], "bound": fmt.Sprintf("%d seeded random/boundary records, seed %d", nrec, seedFromEnv())}
+				"records_tried": res["records_tried"], "records_admissible": res["records_admissible"], "bound": fmt.Sprintf("up to %d seeded random/boundary records within %d s of evaluation, seed %d (records_tried is what was actually evaluated)", nrec, witnessBudgetSecs, seedFromEnv())}
 			boundedChecks = append(boundedChecks, bc)
 			if adm, _ := res["records_admissible"].(int); adm == 0 {
 				genErrors = append(genErrors, fmt.Sprintf("bounded check of trusted %s: no admissible record (%v)", short, res["error"]))
